@@ -28,7 +28,7 @@ SYNTAX = {'css': (': ', ';'), 'scss': (': ', ';'), 'less': (': ', ';'), 'sass': 
 NUM_KEYS = ['p', 'm', 'w', 'h', 't', 'l', 'r', 'b', 'fsz', 'mt', 'pl', 'z', 'lh', 'fw', 'op', 'zom', 'fx', 'mah', 'miw', 'ti', 'bdrs']
 COLOR_KEYS = ['c', 'bgc', 'bdc', 'olc']
 VALS = ['10', '-10', '0', '.5', '1.', '1.25', '10p', '2e', '3x', '1r', '10px', '#f', '#fc0', '#e7bc1b', '#0a0b0c', '#f.5', '#t', '#', '!', '-', '+', '--x', 'a', 'auto', 'block', 'ib', 'n',
-        '(1, 2)', '"s"', "'q'", '${1:x}', ':', ' ', 'sol', 'das', 'lg(to right, #000, #fff)', 'b', 'bold', 'bo', 'url(x)', 'repeat(2)', '%', '/', '10-20', 'c', 'h', 'r', 'nw']
+        '(1, 2)', '"s"', "'q'", '${1:x}', ':', ' ', 'sol', 'das', 'lg(to right, #000, #fff)', 'b', 'bold', 'bo', 'url(x)', 'repeat(2)', '%', '/', '10-20', 'c', 'h', 'r', 'nw', ':a(1)', ':n(1)', ':b(2)', 'i(1)', ':s(1, 2)', '-a(x, y)', ':r(1)', 'rgb(0,0,0)', 'calc(10px)']
 
 
 def rand_cfg(rnd):
@@ -60,8 +60,8 @@ def gen_values(rnd, key_is_color):
         neg = rnd.random() < .25
         prev_unit = items[-1][3] if items else None
         k = rnd.random()
-        if k < .5: txt = str(rnd.choice([0, 1, 2, 5, 10, 12, 100, 1000]))
-        elif k < .7: txt = '%d.%d' % (rnd.choice([0, 1, 2, 10]), rnd.choice([5, 25, 75, 1]))
+        if k < .5: txt = str(rnd.choice([0, 1, 2, 5, 10, 12, 100, 1000, 10001, 65535, 123456, 2147483647]))
+        elif k < .7: txt = '%d.%d' % (rnd.choice([0, 1, 2, 10, 123, 1024, 99999]), rnd.choice([5, 25, 75, 1, 125, 0o5]))
         elif k < .85 and (i == 0 or not prev_unit or neg): txt = '.%d' % rnd.choice([5, 25, 75])
         else: txt = str(rnd.choice([1, 2, 10]))
         if neg and F(txt if not txt.startswith('.') else '0' + txt) == 0: neg = False
@@ -237,11 +237,20 @@ def oracle_C06(case, o):
     return []
 
 
+SHARED_CACHE = {}      # one dictionary per worker process, shared by every C06 case that process runs (varying scopes / syntaxes)
+
+
 def run(case, prop):
     ab = case['s']; o = outcome(ab, mk(case['c']))
     viol = []
     if prop == 'C05' and 'spec' in case: viol = oracle_C05(case, o)
-    elif prop == 'C06' and 'key' in case: viol = oracle_C06(case, o)
+    elif prop == 'C06' and 'key' in case:
+        viol = oracle_C06(case, o)
+        if 'snippets' not in case['c']:
+            # the same call with a cache dictionary shared with earlier calls (other scopes / syntaxes) must select the same snippet
+            c2 = mk(case['c']); c2['cache'] = SHARED_CACHE
+            o2 = outcome(ab, c2)
+            if o2 != o: viol.append('shared-cache| expand(%r, %r) = %r with a cache shared with earlier calls, %r without' % (ab, case['c'], o2[1], o[1]))
     elif prop == 'C07':
         import dom_expand
         viol = dom_expand.oracle_C07(ab, o)
